@@ -120,6 +120,9 @@ def _(): sub1('mh_sha256/mh_sha256_finalize_base.c',"if (partial_buffer_len > (I
 @m('C08-a3','C08','CBC decrypt by8 (sse): the last block of a message that is exactly 1..7 blocks long is never stored','for lengths of 16..112 bytes the final 16 output bytes keep whatever the caller\'s buffer held')
 def _(): sub1('intel-ipsec-mb/lib/include/aes_cbc_dec_by8_sse.inc',"        ;; short message - just store\n        movdqu\t        [%%p_out  + (i * 16)], CONCAT(xdata,i)\n","        ;; short message - just store\n")
 
+@m('C02-a8','C02','gcm_avx_gen4: the counter-wrap test of the eight-block loop is off by one','with a counter low byte of 248 the cheap big-endian add of 8 wraps the byte without carry: wrong key stream for one in 256 IVs per eight blocks, gen4 family only')
+def _(): sub1('aes/gcm_avx_gen4.asm',"        cmp     r15d, 255-8\n        jg      %%_encrypt_by_8\n","        cmp     r15d, 256-8\n        jg      %%_encrypt_by_8\n")
+
 out='/verif/seeded'
 only=set(sys.argv[1:])
 import json
